@@ -52,6 +52,7 @@ def cmd_run(a):
                  tiers_of_deciding_obligations=tiers,
                  obligations_proved_all_inputs=sum(v[1] for k, v in agg['by_clause'].items() if meta.get(k, {}).get('tier') == 'P'),
                  obligations_bounded_deductive=sum(v[1] for k, v in agg['by_clause'].items() if meta.get(k, {}).get('tier') == 'B'),
+                 obligations_runtime_standin=sum(v[1] for k, v in agg['by_clause'].items() if meta.get(k, {}).get('tier') == 'R'),
                  known_findings_reported=sorted(verdict['known_hits']),
                  source_sha256=evidence.source_hashes(['sigtools._signatures']),
                  explanation='contract-based deductive verification of the real code: the functions listed in '
